@@ -1,10 +1,5 @@
-#check @List.mem_eraseDups
-#check @List.nodup_eraseDups
-#check @List.eraseDups_cons
-#check @List.mem_filterMap
-#check @List.any_eq_true
-#check @List.find?_eq_none
-#check @List.getElem?_cons_succ
-#check @List.mem_iff_getElem?
-#check @List.nodup_cons
-#check @List.mem_flatMap
+import VermouthProps.C19Repair
+#print axioms C19.Repair.surplus_removed
+#print axioms C19.Repair.mutation_renames_all
+#print axioms C19.Repair.old_behaviour_splits_residue
+#print axioms C19.Repair.reference_atoms
